@@ -4,6 +4,7 @@ pub mod c03;
 pub mod c04;
 pub mod c05;
 pub mod c06;
+pub mod c07;
 pub mod c08;
 pub mod c09;
 pub mod c10;
@@ -22,6 +23,7 @@ pub fn run(args: &Args, rep: &mut Report) -> Result<(), String> {
 		"C04" => c04::run(args, rep),
 		"C05" => c05::run(args, rep),
 		"C06" => c06::run(args, rep),
+		"C07" => c07::run(args, rep),
 		"C08" => c08::run(args, rep),
 		"C09" => c09::run(args, rep),
 		"C10" => c10::run(args, rep),
@@ -41,6 +43,7 @@ pub fn replay(args: &Args, part: &str, case: &Value) -> Result<Outcome, String> 
 		"C04" => c04::replay(args, part, case),
 		"C05" => c05::replay(args, part, case),
 		"C06" => c06::replay(args, part, case),
+		"C07" => c07::replay(args, part, case),
 		"C08" => c08::replay(args, part, case),
 		"C09" => c09::replay(args, part, case),
 		"C10" => c10::replay(args, part, case),
